@@ -156,6 +156,20 @@ def r4(cx, chk, cfg, F, short, adt):
             fields |= composite.fields_touched(p)
         sets[name] = fields
     ref = sets["contains"]
+    # path level: an answer "absent" (None / false) is only given after every list `contains` consults was looked into
+    want = set(x for x in ref)
+    for name in LOOKUPS:
+        f = composite.cache_method(F, adt, name)
+        for p in cx.paths(cfg, f["path"]):
+            rv = p.ret
+            absent = (isinstance(rv, tuple) and rv[0] == "agg" and rv[1] == "adt" and rv[2][1] == "None") or rv == ("const", "bool", "0")
+            if not absent:
+                continue
+            looked = composite.fields_touched(p)
+            if want - looked:
+                chk.violation("C02.R4", "%s::%s|absent-early" % (short, name), "%s::%s answers `absent` on a path that never looked into %s: a resident entry can be reported missing" % (short, name, sorted(want - looked)),
+                              f["span"]["file"], f["span"]["lo"], f["q"], None, cfg)
+                break
     for name, s in sets.items():
         f = composite.cache_method(F, adt, name)
         if s != ref:
